@@ -80,6 +80,8 @@ pub open spec fn kept(n: QCtx, o: QCtx) -> bool {
 pub open spec fn kept_counts(n: QCtx, o: QCtx) -> bool { kept(n, o) && n.appends == o.appends && n.ran == o.ran && n.unparked == o.unparked }
 /// a thread that neither owns the queue nor owes it anything
 pub open spec fn outsider(c: QCtx) -> bool { !c.holds && !c.parked && c.current is None && paid(c) && valid(c) && !c.latching && !c.latch_parked }
+/// the first critical section a function performed on the queue core
+pub open spec fn first_sec(new: QCtx, old: QCtx) -> Sec { new.log[old.log.len() as int] }
 pub open spec fn paid(c: QCtx) -> bool { !c.debt_idle && !c.debt_pending }
 
 pub open spec fn is_append(a: Seq<BoxedJob>, b: Seq<BoxedJob>) -> bool { b.len() == a.len() + 1 && b.drop_last() =~= a }
